@@ -13,7 +13,7 @@ from fibertree.model.traffic import Traffic
 BOUNDS = {
     "quick": "trace rows are concrete skeletons written to real files (the models parse CSV text and hash positions); the solver quantifies the buffer capacity "
              "(any integer >= 0) and the rank shape that separates the insertion staging area. Buffet: all read/write traces with <= 2 rows over 2 outer-loop iterations, "
-             "positions {0,1,staging}, read-only / write-only / read+write rows, evict-on root and M, line = 1 or 2 elements, plus curated 3-row traces and a two-binding "
+             "positions {0,1,staging}, read-only / write-only / read+write rows, evict-on root and M, line = 1, 2 or 3 elements, plus curated 3-row traces and a two-binding "
              "(rank M + rank K) skeleton. Cache: all line sequences of length <= 5 over <= 3 lines (restricted-growth strings, two position embeddings) against exhaustive "
              "optimal replacement with bypass. filterTrace / _combineTraces: concrete text-level checks only",
     "thorough": "buffet traces with <= 3 rows exhaustively; cache sequences of length <= 7 over <= 4 lines; write traces for the cache",
@@ -277,10 +277,12 @@ def obligations(tier):
     n = 0
     for rows, wmask in _buffet_skeletons(2 if q else 3, CURATED3):
         for evict in ("root", "M"):
-            for epl in (1, 2):
+            for epl in (1, 2, 3):
                 n += 1
-                if q and epl == 2 and (n // 2) % 3 != 0:
+                if q and epl == 2 and (n // 3) % 3 != 0:
                     continue       # quick tier: every third skeleton also with 2-element lines; the thorough tier runs all
+                if q and epl == 3 and (n // 3) % 3 != 1:
+                    continue       # ... and another third with 3-element lines (a line size that is not a power of two)
                 tag = "%s/%s/%s/e%d" % ("-".join("%d%d%d" % (r[0], r[1], r[4]) for r in rows), "".join(map(str, wmask)), evict, epl)
                 obs.append(Ob("buffet/" + tag, "buffet", dict(rows=rows, wmask=wmask, evict=evict, epl=epl), ["cap", "cap2", "S"], ["0 <= cap", "cap <= cap2", "0 <= S"]))
     for mrows, mw, krows, kw in [
@@ -291,8 +293,8 @@ def obligations(tier):
         tag = "-".join("%d%d" % (r[0], r[2]) for r in mrows) + "_" + "-".join("%d%d%d" % (r[0], r[1], r[4]) for r in krows)
         obs.append(Ob("buffet2/" + tag, "buffet2", dict(mrows=mrows, mw=mw, krows=krows, kw=kw), ["cap", "shm", "shk"], ["0 <= cap", "1 <= shm", "1 <= shk"]))
     for seq in _rgs(5 if q else 7, 3 if q else 4):
-        for posmap, epl in (([0, 1, 2, 3], 1), ([7, 2, 5, 0], 1), ([0, 1, 2, 3], 2)):
-            if q and epl == 2 and len(seq) > 4:
+        for posmap, epl in (([0, 1, 2, 3], 1), ([7, 2, 5, 0], 1), ([0, 1, 2, 3], 2), ([2, 0, 3, 1], 3)):
+            if q and epl >= 2 and len(seq) > 4:
                 continue
             obs.append(Ob("cache/%s/p%d/e%d" % ("".join(map(str, seq)), posmap[0], epl), "cache", dict(seq=seq, posmap=posmap, epl=epl), ["cap", "cap2"],
                           ["0 <= cap", "cap <= cap2"]))
